@@ -520,6 +520,9 @@ impl Worker {
             let _ = reply_tx.send(Err(err));
             return;
         }
+        // A rollover moves the writer to a new segment: a failed write has to be truncated
+        // back to where this transaction starts in the segment it is actually written to
+        let write_offset = writer_set.writer.write_offset();
 
         let bytes_since_sync = writer_set.bytes_since_sync;
         let res = writer_set.handle_write(WriteOperation {
